@@ -22,6 +22,31 @@ Proof.
     + now rewrite (thr_other s s' t th' Hthr) by assumption.
 Qed.
 
+(* the witness of expireAll's copying window survives a step of another thread, or of the same
+   thread inside the window *)
+Lemma disj_carry : forall s s' t th' k o,
+  Inv s -> s_n s' = s_n s -> s_thr s' = upd (s_thr s) t th' -> t < s_n s ->
+  (xwinpc (t_pc (s_thr s t)) = true -> xwinpc (t_pc th') = true) ->
+  dget (s_strong s) k = Some o -> 
+  dget (s_weak s) k = None \/
+  (dget (s_weak s) k = Some o /\ exists x, x < s_n s' /\ xwinpc (t_pc (s_thr s' x)) = true).
+Proof.
+  intros s s' t th' k o Hinv Hn Hthr Ht Hw H.
+  destruct (inv_disj s Hinv k o H) as [A | (A & x & Hx & Wx)]; [now left |].
+  right. split; [assumption |]. exists x. rewrite Hn. split; [assumption |].
+  destruct (Nat.eq_dec x t) as [-> | Hne].
+  - rewrite (thr_same s s' t th' Hthr). now apply Hw.
+  - now rewrite (thr_other s s' t th' Hthr) by assumption.
+Qed.
+
+(* other threads' loop assertions when the stepping thread holds the lock *)
+Lemma others_unlocked : forall s t x, Inv s -> t < s_n s -> x < s_n s -> x <> t ->
+  holds (t_pc (s_thr s t)) = true -> holds (t_pc (s_thr s x)) = false.
+Proof.
+  intros s t x Hinv Ht Hx Hne Hh. destruct (holds (t_pc (s_thr s x))) eqn:E; [| reflexivity]. exfalso.
+  apply (inv_lock s Hinv x Hx) in E. apply (inv_lock s Hinv t Ht) in Hh. congruence.
+Qed.
+
 (* ------------------------------------------------------------------ A: the thread record changes, and possibly the
    lock, the heap (allocation, flags and write locks of instances), and globals the invariant
    does not mention (present flag, cull counters, rows); the dicts and the epochs stay *)
@@ -35,6 +60,8 @@ Hypothesis Es : s_strong s' = s_strong s.
 Hypothesis Ew : s_weak s' = s_weak s.
 Hypothesis Ee : s_epoch s' = s_epoch s.
 Hypothesis Eu : s_unmod s' = s_unmod s.
+Hypothesis Esv : s_sver s' = s_sver s.
+Hypothesis Ewv : s_wver s' = s_wver s.
 Let th := s_thr s t.
 
 Hypothesis LC : lock_change s s' t th'.
@@ -60,7 +87,9 @@ Hypothesis O_selfdef : selfdef (t_pc th') = true -> t_self th' <> None.
 Hypothesis O_exc : exc_ok th'.
 Hypothesis O_noexc : forall x, In (RExc x) (t_slots th') -> x = NotFound.
 Hypothesis O_core : core_pc (t_pc th') = true.
-Hypothesis O_mex : t_mex th' = false.
+Hypothesis O_all : forall o, In o (t_all th') \/ In o (t_items th') -> o < s_nextobj s'.
+Hypothesis O_iter : iter_ok (s_strong s) (s_weak s) (s_sver s) (s_wver s) th'.
+Hypothesis O_xwin : xwinpc (t_pc th) = true -> xwinpc (t_pc th') = true.
 Hypothesis O_mov : mov_of th' = mov_of th \/
   (mov_of th' = None /\ new = None /\ forall i o, mov_of th = Some (i, o) -> ~ holder s i o (s_epoch s i)).
 Hypothesis O_new : forall i o e, hold_th th' i o e -> hold_th th i o e \/ new = Some (i, o, e).
@@ -93,6 +122,7 @@ Proof.
   - use f_w_weak.
   - use f_w_thr.
   - use f_w_cobj.
+  - use f_w_all.
   - use f_key_strong.
   - use f_key_weak.
   - use f_lock.
@@ -103,7 +133,7 @@ Proof.
   - use f_wabs.
   - rewrite Es. apply (inv_nodup_strong s Hinv).
   - rewrite Ew. apply (inv_nodup_weak s Hinv).
-  - rewrite Es, Ew. apply (inv_disj s Hinv).
+  - intros k o H. rewrite Es in H. rewrite Ew. eapply disj_carry; eauto.
   - use f_valdef.
   - use f_valkey.
   - use f_selfkey.
@@ -128,6 +158,9 @@ Proof.
       destruct (inv_w_thr s Hinv x Hx) as (_ & Rs & _). pose proof (inv_w_cobj s Hinv x Hx) as Rc.
       eapply cull_ok_same; [| | exact C]; intros o E; apply K; [now apply Rc | now apply Rs].
     + now rewrite Es, Ew.
+  - use f_iter.
+    + intros x Hx Hne C. now rewrite Es, Ew, Esv, Ewv.
+    + now rewrite Es, Ew, Esv, Ewv.
   - use f_noexc.
   - rewrite Eu. apply (inv_unmod s Hinv).
   - use f_scope.
@@ -178,7 +211,10 @@ Hypothesis O_selfdef : selfdef (t_pc th') = true -> t_self th' <> None.
 Hypothesis O_exc : exc_ok th'.
 Hypothesis O_noexc : forall x, In (RExc x) (t_slots th') -> x = NotFound.
 Hypothesis O_core : core_pc (t_pc th') = true.
-Hypothesis O_mex : t_mex th' = false.
+Hypothesis O_all : forall o, In o (t_all th') \/ In o (t_items th') -> o < s_nextobj s.
+Hypothesis L_holds : holds (t_pc th) = true.
+Hypothesis L_xwin : xwinpc (t_pc th) = false.
+Hypothesis O_iterpc : iterpc (t_pc th') = false.
 Hypothesis O_mov : mov_of th' = None.
 Hypothesis O_new : forall i o e, hold_th th' i o e -> hold_th th i o e \/ new = Some (i, o, e).
 Hypothesis O_newis : forall i0 o0 e0, new = Some (i0, o0, e0) -> i0 = i /\ o0 = o /\ e0 = s_epoch s i.
@@ -215,6 +251,7 @@ Proof.
   - use f_w_weak. lia.
   - use f_w_thr; unfold ref_ok in *; rewrite ?Eo; auto; lia.
   - use f_w_cobj; unfold ref_ok in *; rewrite ?Eo; auto; lia.
+  - use f_w_all; [lia |]. now rewrite Eo.
   - intros k o1 H. rewrite Es in H. rewrite Eh. destruct (Z.eq_dec k i) as [-> | Hne].
     + rewrite dget_dset_same in H. injection H as E. rewrite <- E. assumption.
     + rewrite dget_dset_other in H by assumption. eapply inv_key_strong; eauto.
@@ -236,8 +273,8 @@ Proof.
   - use f_wabs. congruence.
   - rewrite Es. apply nodup_dset. apply (inv_nodup_strong s Hinv).
   - rewrite Ew. apply (inv_nodup_weak s Hinv).
-  - intros k H. rewrite Es in H. rewrite Ew. destruct (Z.eq_dec k i) as [-> | Hne]; [assumption |].
-    rewrite dget_dset_other in H by assumption. now apply (inv_disj s Hinv).
+  - intros k o1 H. rewrite Es in H. rewrite Ew. destruct (Z.eq_dec k i) as [-> | Hne]; [now left |].
+    rewrite dget_dset_other in H by assumption. left. eapply disj_strict; eauto.
   - use f_valdef.
   - use f_valkey. intros o1. rewrite Eh. apply O_valkey.
   - use f_selfkey. intros o1. rewrite Eh. apply O_selfkey.
@@ -255,11 +292,11 @@ Proof.
     + left. intros. now rewrite Ee.
     + intros k D. congruence.
   - use f_cull.
-    + intros x Hx Hne C. rewrite Es, Ew, Eh. apply cull_ok_dset; try assumption.
-      intros Kx E. apply (Hothers x (t_key (s_thr s x)) Hx Hne); [| exact E].
-      unfold absent_key. rewrite Kx. destruct (sabs (t_pc (s_thr s x))) eqn:S; [| reflexivity].
-      destruct (t_pc (s_thr s x)); simpl in *; discriminate.
-    + now apply cull_ok_none.
+    + intros x Hx Hne C. rewrite Eh. eapply cull_ok_unlocked; [| exact C]. exact (others_unlocked s t x Hinv Ht Hx Hne L_holds).
+    + rewrite Eh. now apply cull_ok_none.
+  - use f_iter.
+    + intros x Hx Hne C. eapply iter_ok_unlocked; [| exact C]. exact (others_unlocked s t x Hinv Ht Hx Hne L_holds).
+    + now apply iter_ok_none.
   - use f_noexc.
   - rewrite Eu. apply (inv_unmod s Hinv).
   - use f_scope.
@@ -294,6 +331,8 @@ Hypothesis P_tagged : tagged p' = false.
 Hypothesis P_selfdef : selfdef p' = true -> selfdef (t_pc th) = true.
 Hypothesis P_creating : creating p' = false.
 Hypothesis P_cull : cullpc p' = false.
+Hypothesis P_xwin : xwinpc (t_pc th) = false.
+Hypothesis P_iterpc : iterpc p' = false.
 Hypothesis P_exc : t_exc th = None.
 Hypothesis P_core : core_pc p' = true.
 Hypothesis P_mov : mov_of th = None.
@@ -331,6 +370,7 @@ Proof.
   - intros j o H. rewrite Eo. eapply inv_w_weak; eauto using purge_weak_some.
   - use f_w_thr; unfold ref_ok in *; rewrite ?Eo; auto; lia.
   - use f_w_cobj; [lia |]. simpl. unfold ref_ok. rewrite Eo. apply (inv_w_cobj s Hinv t Ht).
+  - use f_w_all; [lia |]. simpl. rewrite Eo. intros o X. exact (inv_w_all s Hinv t o Ht X).
   - intros j o H. rewrite Eh. eapply inv_key_strong; eauto using purge_strong_some.
   - intros j o H. rewrite Eh. eapply inv_key_weak; eauto using purge_weak_some.
   - use f_lock. apply lc_same; [assumption | simpl; fold th; congruence].
@@ -350,8 +390,7 @@ Proof.
     + rewrite (thr_other s s' t _ Hthr) in * by assumption. now apply (inv_wabs s Hinv).
   - rewrite Es. destruct sd; [apply nodup_ddel |]; apply (inv_nodup_strong s Hinv).
   - rewrite Ew. destruct sd; [| apply nodup_ddel]; apply (inv_nodup_weak s Hinv).
-  - intros j H. apply purge_weak_none. apply (inv_disj s Hinv).
-    intros E. apply H. now apply purge_strong_none.
+  - intros j o H. left. apply purge_weak_none. eapply disj_strict; eauto using purge_strong_some.
   - use f_valdef. simpl. congruence.
   - use f_valkey. simpl. rewrite P_valdef, P_tagged. discriminate.
   - use f_selfkey. simpl. rewrite P_creating. discriminate.
@@ -378,9 +417,12 @@ Proof.
       destruct (holds (t_pc (s_thr s x))) eqn:Hh; [| reflexivity]. exfalso.
       apply (inv_lock s Hinv x Hx) in Hh. apply (inv_lock s Hinv t Ht) in P_holds. congruence.
     + apply cull_ok_none. exact P_cull.
+  - use f_iter.
+    + intros x Hx Hne C. eapply iter_ok_unlocked; [| exact C]. exact (others_unlocked s t x Hinv Ht Hx Hne P_holds).
+    + apply iter_ok_none. exact P_iterpc.
   - use f_noexc. simpl. intros x H. exact (inv_noexc s Hinv t x Ht H).
   - rewrite Eu. apply (inv_unmod s Hinv).
-  - use f_scope. simpl. apply (inv_scope s Hinv t Ht).
+  - use f_scope.
 Qed.
 
 End Purge.
@@ -422,6 +464,7 @@ Proof.
   - intros j o H. rewrite Eo. eapply inv_w_weak; eauto.
   - use f_w_thr; unfold ref_ok in *; rewrite ?Eo; auto; lia.
   - use f_w_cobj; [lia |]. simpl. unfold ref_ok. rewrite Eo. apply (inv_w_cobj s Hinv t Ht).
+  - use f_w_all; [lia |]. simpl. rewrite Eo. intros o X. exact (inv_w_all s Hinv t o Ht X).
   - use f_key_strong.
   - intros j o H. rewrite Eh. eapply inv_key_weak; eauto.
   - use f_lock. apply lc_same; [assumption | simpl; fold th; now rewrite Hpc].
@@ -439,7 +482,7 @@ Proof.
     + rewrite (thr_other s s' t _ Hthr) in * by assumption. apply dget_ddel_none. now apply (inv_wabs s Hinv).
   - rewrite Es. apply (inv_nodup_strong s Hinv).
   - rewrite Ew. apply nodup_ddel. apply (inv_nodup_weak s Hinv).
-  - intros j H. rewrite Es in H. rewrite Ew. apply dget_ddel_none. now apply (inv_disj s Hinv).
+  - intros j o H. rewrite Es in H. rewrite Ew. left. apply dget_ddel_none. eapply disj_strict; eauto. fold th. now rewrite Hpc.
   - use f_valdef. simpl. discriminate.
   - use f_valkey. simpl. intros o _ V. rewrite Eh. apply (inv_valkey s Hinv t o Ht); [fold th; now rewrite Hpc | exact V].
   - use f_selfkey. simpl. discriminate.
@@ -472,9 +515,12 @@ Proof.
       destruct (holds (t_pc (s_thr s x))) eqn:Hh; [| reflexivity]. exfalso.
       apply (inv_lock s Hinv x Hx) in Hh. apply (inv_lock s Hinv t Ht) in Hholds. congruence.
     + apply cull_ok_none. reflexivity.
+  - use f_iter.
+    + intros x Hx Hne C. eapply iter_ok_unlocked; [| exact C]. exact (others_unlocked s t x Hinv Ht Hx Hne Hholds).
+    + apply iter_ok_none. reflexivity.
   - use f_noexc. simpl. intros x H. exact (inv_noexc s Hinv t x Ht H).
   - rewrite Eu. apply (inv_unmod s Hinv).
-  - use f_scope; [reflexivity | simpl; apply (inv_scope s Hinv t Ht)].
+  - use f_scope. reflexivity.
 Qed.
 
 End WeakMove.
@@ -502,7 +548,8 @@ Hypothesis D_key_strong : forall k o, dget (s_strong s') k = Some o -> o_key (s_
 Hypothesis D_key_weak : forall k o, dget (s_weak s') k = Some o -> o_key (s_heap s o) = k.
 Hypothesis D_nodup_strong : NoDup (dkeys (s_strong s')).
 Hypothesis D_nodup_weak : NoDup (dkeys (s_weak s')).
-Hypothesis D_disj : forall k, dget (s_strong s') k <> None -> dget (s_weak s') k = None.
+Hypothesis D_disj : forall k o, dget (s_strong s') k = Some o ->
+  dget (s_weak s') k = None \/ (dget (s_weak s') k = Some o /\ xwinpc (t_pc th') = true).
 Hypothesis D_reg : forall i o, holder s i o (s_epoch s i) -> registered s i o -> registered s' i o.
 
 Hypothesis O_val : ref_ok s (t_val th').
@@ -520,7 +567,8 @@ Hypothesis O_selfdef : selfdef (t_pc th') = false.
 Hypothesis O_exc : t_exc th' = None.
 Hypothesis O_slots_eq : t_slots th' = t_slots th.
 Hypothesis O_core : core_pc (t_pc th') = true.
-Hypothesis O_mex : t_mex th' = false.
+Hypothesis O_all : forall o, In o (t_all th') \/ In o (t_items th') -> o < s_nextobj s.
+Hypothesis O_iter : iter_ok (s_strong s') (s_weak s') (s_sver s') (s_wver s') th'.
 Hypothesis O_deadw : deadw th' = None.
 Hypothesis O_f121 : t_pc th' <> F121.
 
@@ -542,6 +590,7 @@ Proof.
   - intros k o H. rewrite Eo. eauto.
   - use f_w_thr; unfold ref_ok in *; rewrite ?Eo; auto; lia.
   - use f_w_cobj; unfold ref_ok in *; rewrite ?Eo; auto; lia.
+  - use f_w_all; [lia |]. now rewrite Eo.
   - intros k o H. rewrite Eh. eauto.
   - intros k o H. rewrite Eh. eauto.
   - use f_lock. apply lc_same; [assumption | fold th; congruence].
@@ -563,7 +612,8 @@ Proof.
       pose proof (Hother x Hx Hne) as Hh. destruct (t_pc (s_thr s x)); simpl in *; discriminate.
   - assumption.
   - assumption.
-  - assumption.
+  - intros k o H. destruct (D_disj k o H) as [A | (A & B)]; [now left |]. right. split; [assumption |].
+    exists t. rewrite Hn, Tsame. auto.
   - use f_valdef. congruence.
   - use f_valkey. rewrite O_valdef, O_tagged. discriminate.
   - use f_selfkey. rewrite O_creating. discriminate.
@@ -577,6 +627,7 @@ Proof.
   - use f_cull.
     + intros x Hx Hne C. rewrite Eh. eapply cull_ok_unlocked; [| exact C]. now apply Hother.
     + now rewrite Eh.
+  - use f_iter. intros x Hx Hne C. eapply iter_ok_unlocked; [| exact C]. now apply Hother.
   - use f_noexc. rewrite O_slots_eq. intros x H. exact (inv_noexc s Hinv t x Ht H).
   - rewrite Eu. apply (inv_unmod s Hinv).
   - use f_scope.
